@@ -541,12 +541,43 @@ func (s *SwapService) estimateMaximumSwapAmountSat(chain string) (uint64, error)
 	return 0, errors.New("invalid chain")
 }
 
+// swapIdKnown returns true if a swap with this id is active or stored. A swap
+// id must never be reused: a request carrying a known id is refused so that it
+// can not replace the existing swap.
+func (s *SwapService) swapIdKnown(swapId *SwapId) bool {
+	if _, err := s.GetActiveSwap(swapId.String()); err == nil {
+		return true
+	}
+	if _, err := s.swapServices.swapStore.GetData(swapId.String()); err == nil {
+		return true
+	}
+	return false
+}
+
+// refuseKnownSwapId tells the peer that we do not accept a request that reuses
+// the id of a swap we already know.
+func (s *SwapService) refuseKnownSwapId(swapId *SwapId, peerId string) error {
+	err := fmt.Errorf("swap id %s is already in use", swapId.String())
+	msgBytes, msgType, merr := MarshalPeerswapMessage(&CancelMessage{
+		SwapId:  swapId,
+		Message: err.Error(),
+	})
+	if merr != nil {
+		return merr
+	}
+	s.swapServices.messenger.SendMessage(peerId, msgBytes, msgType)
+	return err
+}
+
 // OnSwapInRequestReceived creates a new swap-in process and sends the event to the swap statemachine
 func (s *SwapService) OnSwapInRequestReceived(swapId *SwapId, peerId string, message *SwapInRequestMessage) error {
 	var (
 		premiumValue int64
 		err          error
 	)
+	if s.swapIdKnown(swapId) {
+		return s.refuseKnownSwapId(swapId, peerId)
+	}
 	// Network is the desired on-chain network to use. This can be:
 	// Bitcoin: mainnet, testnet, signet, regtest
 	// Liquid: The field is left blank as the asset id also defines the bitcoinNetwork.
@@ -658,6 +689,9 @@ func (s *SwapService) OnSwapOutRequestReceived(swapId *SwapId, peerId string, me
 		premiumValue int64
 		err          error
 	)
+	if s.swapIdKnown(swapId) {
+		return s.refuseKnownSwapId(swapId, peerId)
+	}
 	// Network is the desired on-chain network to use. This can be:
 	// Bitcoin: mainnet, testnet, signet, regtest
 	// Liquid: The field is left blank as the asset id also defines the bitcoinNetwork.
